@@ -82,7 +82,17 @@ def new_records(draw, records, delimiter):
             ps.append(of(b, "prefix"))
     elif shape == "case":
         r = draw(st.sampled_from(records))
-        if draw(st.booleans()):
+        # prefer strings that have a case variant of another length (sharp s, ligatures, dotted I) when the state holds one
+        odd = [(rr, side, x) for rr in records for side in ("prefix", "uri_prefix") for x in [rr[side]] + rr[side + "_synonyms"]
+               if any(len(v) != len(x) and v.casefold() == x.casefold() for v in (x.upper(), x.casefold(), x.title()))]
+        if odd and draw(st.booleans()):
+            rr, side, x = draw(st.sampled_from(odd))
+            v = draw(st.sampled_from([v for v in (x.upper(), x.casefold(), x.title()) if len(v) != len(x) and v.casefold() == x.casefold()]))
+            if side == "prefix":
+                p = v
+            else:
+                u = v
+        elif draw(st.booleans()):
             p = _case_variant(draw, of(r, "prefix"))
         else:
             u = _case_variant(draw, of(r, "uri_prefix"))
@@ -291,8 +301,14 @@ def make_machine(tier, stats: Stats):
             super().__init__()
             self.h = None
 
-        @initialize(spec=S.converter_specs(max_records=5 if big else 4, max_syn=3, patterns=True))
-        def init(self, spec):
+        @initialize(spec=S.converter_specs(max_records=5 if big else 4, max_syn=3, patterns=True), twin=st.sampled_from([None, None, None, None, ",", "|", ", "]))
+        def init(self, spec, twin):
+            taken = {x for r in spec["records"] for x in prefixes_of(r) + uri_prefixes_of(r)}
+            if twin is not None and twin not in spec["delimiter"] and spec["delimiter"] not in twin and not ({"j1", "j2", "j1" + twin + "j2", "tw://a/", "tw://b/"} & taken):
+                # two different records whose lists of names look alike once joined with a separator: [j1, j2] and ["j1,j2"]
+                spec = copy.deepcopy(spec)
+                spec["records"] += [{"prefix": "j1", "uri_prefix": "tw://a/", "prefix_synonyms": ["j2"], "uri_prefix_synonyms": [], "pattern": None},
+                                    {"prefix": "j1" + twin + "j2", "uri_prefix": "tw://b/", "prefix_synonyms": [], "uri_prefix_synonyms": [], "pattern": None}]
             self.h = History(spec, stats)
             guarded(lambda case, st_: self.h._consistent(), self.h.case(), stats)
 
